@@ -2195,12 +2195,17 @@ ws_conn_cb(void *arg)
 	}
 
 	ws->http = nni_aio_get_output(&ws->connaio, 0);
+	// The dialer lock protects the headers (and protocol) configured
+	// on the dialer, which can be changed while we are dialing.  It is
+	// always taken before the lock of a websocket.
+	nni_mtx_lock(&d->mtx);
 	nni_mtx_lock(&ws->mtx);
 	uaio = ws->useraio;
 	nni_aio_set_output(&ws->connaio, 0, NULL);
 	if (uaio == NULL) {
 		// This request was canceled for some reason.
 		nni_mtx_unlock(&ws->mtx);
+		nni_mtx_unlock(&d->mtx);
 		ws_reap(ws);
 		return;
 	}
@@ -2239,11 +2244,13 @@ ws_conn_cb(void *arg)
 
 	nni_http_write_req(ws->http, &ws->httpaio);
 	nni_mtx_unlock(&ws->mtx);
+	nni_mtx_unlock(&d->mtx);
 	return;
 
 err:
 	nni_aio_finish_error(uaio, rv);
 	nni_mtx_unlock(&ws->mtx);
+	nni_mtx_unlock(&d->mtx);
 	ws_reap(ws);
 }
 
